@@ -90,6 +90,24 @@ def promoted_bytes(body, k):
     return out
 
 
+def promoted_int(body, k):
+    """Integer a promoted `&CONST` refers to, read off the promoted MIR body (generic functions only)."""
+    import re
+    m = re.search(r"promoted\[(\d+)\]$", k.get("s", "") or "")
+    idx = int(m.group(1)) if m else k.get("pidx")
+    proms = body.j.get("promoted") or []
+    if idx is None or idx >= len(proms):
+        return None
+    vals = []
+    for bl in proms[idx]["blocks"]:
+        for s in bl["s"]:
+            if s["k"] == "assign" and s["r"]["k"] == "use":
+                v = const_int(op_const(s["r"]["op"]))
+                if v is not None:
+                    vals.append(v)
+    return vals[0] if len(vals) == 1 else None
+
+
 def v_len(c):
     v = c.get("v", {})
     for key in ("indirect", "ptr", "slice"):
